@@ -313,6 +313,10 @@ def task_graph(arg):
 
 
 def replay(case):
+    if "first_in_call" in case:
+        part = task_wrapper_joint(case["date"])
+        v = [x for x in part["violations"] if x[1].get("rule") == case["rule"]]
+        return not v, "; ".join(x[2] for x in v[:2])
     if "value" in case:
         ds, g, name = case["date"], case["group"], case["rule"]
         p, _ = harness.env(ds)
